@@ -204,6 +204,23 @@ def run(ctx):
         except UnicodeDecodeError:
             body = {"bytes_hex": raw.hex()}
         todo.append({"files": {"/w/m.djinni": '@extern "e.yaml"\nr = record { a: i32; }', "/w/e.yaml": body}, "root": "/w/m.djinni", "stream": "extern-bytes", "mut": "extern-bytes"})
+    # @extern files that are YAML-like but malformed somewhere (the stream of documents is read lazily: an error in a later
+    # document, an unterminated flow collection or quote, a tab, an alias without anchor, a duplicate anchor …) or
+    # well-formed but not an external type; as the only load line, after another extern, and below an import
+    good = "name: ok_type\nprimitive: record\n"
+    yamls = ["[", "{", "a: [1, 2", "a: {b: 1", "'unterminated", '"unterminated', "a: b: c", "a:\n\tb: 1", "- a\nb: 1", "*alias", "&a 1\n&a 2: x", "%YAML 9.9\n---\na: 1",
+             good + "---\n[", good + "---\na: b: c", good + "---\n" + good.replace("ok_type", "t2") + "---\n'open", "--- >\n text\n---\n{", "? [\n: 1", "a: !!python/object:os.system 1",
+             "a: !unknown_tag 1", good + "...\n]", "- - - [", "key: |\n  text\n wrong", "a: 1\na: 2", "1", "text", "[1, 2]", "null", "~", "---\n---\n", "name: 5\nprimitive: record"]
+    for i, y in enumerate(yamls):
+        for shape in range(3):
+            if shape == 0:
+                files = {"/w/m.djinni": '@extern "e.yaml"\nr = record { a: i32; }', "/w/e.yaml": {"raw": y}}
+            elif shape == 1:
+                files = {"/w/m.djinni": '@extern "g.yaml"\n@extern "e.yaml"\nr = record { a: x; }', "/w/e.yaml": {"raw": y},
+                         "/w/g.yaml": {"ext": [{"name": "x", "ns": [], "prim": "enum"}]}}
+            else:
+                files = {"/w/m.djinni": '@import "sub/i.djinni"\nr = record { a: e0; }', "/w/sub/i.djinni": '@extern "../e.yaml"\ne0 = enum { k; }', "/w/e.yaml": {"raw": y}}
+            todo.append({"files": files, "root": "/w/m.djinni", "stream": "extern-bytes", "mut": "extern-yaml", "configured": (i + shape) % 3 == 0})
     # import graphs (cycles, diamonds, '..' spellings across directories) — termination with imports
     import props.c16 as c16
     for i in range(ctx.n(60, 600)):
